@@ -105,8 +105,8 @@ def known36(case):
     return any(k == 'R' and a not in written for a, ty, k, ps in merged_defs(case))
 
 def known_esc(case):
-    """D56 (and D06): an entity literal contains a character reference to '&' or '<'"""
-    return any(d[0] == 'e' and any(k == 'c' and v in (38, 60) for k, v in d[2]) for d in case['decls'])
+    """D56: an entity literal contains a character reference to '&'"""
+    return any(d[0] == 'e' and any(k == 'c' and v == 38 for k, v in d[2]) for d in case['decls'])
 
 def all_pieces(case):
     for d in case['decls']:
@@ -188,6 +188,11 @@ def random_case(rng):
     if bad < 0.05 and names:
         decls[rng.randrange(len(decls))] = ('e', 'u0', [('r', 'nowhere')])
         names = names + ['u0']
+    elif bad < 0.13 and names:
+        # a reference cycle (WFC No Recursion) or a '<' smuggled in by a character reference
+        k = rng.randrange(len(decls))
+        extra = [('r', rng.choice(names))] if bad < 0.10 else [('c', 60)]
+        decls[k] = ('e', decls[k][1], decls[k][2] + extra)
     attrs_all = ['a', 'b', 'p:c', 'c', 'd']
     nl = rng.randint(0, 3)
     lists = []
@@ -198,7 +203,7 @@ def random_case(rng):
             k = rng.choice(['I', 'D', 'D', 'F', 'R'] if rng.random() < 0.5 else ['I', 'D', 'F'])
             defs.append((rng.choice(attrs_all), rng.choice(TYPES), k, rand_pieces(rng, names, rng.randint(0, 4)) if k in 'DF' else []))
         lists.append(('l', el, defs))
-    if 0.05 <= bad < 0.10 and lists:
+    if 0.13 <= bad < 0.18 and lists:
         decls = lists + decls                                          # ATTLISTs before the entities they use
     else:
         decls = decls + lists
@@ -335,16 +340,18 @@ def check(run):
             'original_xml': render_xml(cases[i]), 'replay': 'bin/check C11 --replay <this file>'})
     if unknown:
         run.notes.append('%d failing inputs in all, %d distinct after shrinking the first 12' % (len(unknown), len(reported)))
-    # D09 (property C03) is outside C11 by hypothesis (wf_table): reproduce it once, for the record
+    # entity cycles: refused when the document is built since commits d2b7d1e / ed2c470 (was defect D09 of C03)
     if okr:
         cyc = {'decls': [('e', 'x', [('r', 'y')]), ('e', 'y', [('r', 'x')])], 'el': 'e', 'attrs': [('a', [('r', 'x')])]}
         cls, out = lib.run_isolated(lib.rust_bin(), ['attr'], lib.enc(render_xml(cyc)), timeout=20)
-        run.notes.append('entity cycle (excluded from C11 by wf_table, defect D09 of C03): implementation -> %s %s; model and specification -> overflow / Recursion' % (cls, out))
+        run.notes.append('entity cycle <!ENTITY x "&y;"><!ENTITY y "&x;"> a="&x;": implementation -> %s %s (expected: ok err ...)' % (cls, out))
+        if cls != 'ok' or not out.startswith('err'):
+            run.tie_breaks.append('an entity cycle is no longer refused: %s %s' % (cls, out))
     return run.finish(level='proof',
         rule='one case = (internal subset, start-tag) as abstract pieces; distinct by the abstract case; non-trivial = some literal contains a reference or a white-space character other than space',
         assumptions=['reading R1: 3.3.3 applies to replacement text in which character references are already replaced (DESIGN 7.3)',
                      'reading R3: each literal white-space character becomes one space; the end-of-line handling of XML 1.0 2.11 is not part of this property',
-                     'entity tables without reference cycle (wf_table); cycles are defect D09 of property C03',
+                     'theorems: well-formed documents (doc_wf: entities before attribute lists, references declared, no cycle); ill-formed ones are compared by the correspondence and the search only',
                      'no parameter entities, no external subset (xml-rs supports neither)'])
 
 def replay(path):
